@@ -15,13 +15,16 @@
      update   a SET       b WHERE         c RETURNING     d decoration       e "-"
      delete   a WHERE     b RETURNING     c decoration    d "-"              e "-"
      ddl      a FK graph  b table feature c operation     d naming / schema  e "-"
+     cte      a CTE kind  b use site      c reuse (the SAME cte object in 1 / 2 sibling scopes)   d second site   e enclosing statement
+              (the CTE family is small and enumerated as a FULL product, not cut by Depth: scoping of nesting CTEs only shows
+               when kind, use site and reuse are all non-default at once)
 
    checks/stmtshapes_common.py (ConstructBuilder) builds the real construct of every derivation; TLC checks the sanity theorems
    Typed (every state is a derivation of exactly one kind), Bounded, and the assumption DefaultFirst (the all-default and every
    single-production derivation of every kind is enumerated - the bound cuts nothing below itself); the check verifies that every production of every dimension occurs. *)
 EXTENDS Integers, Sequences, FiniteSets, TLC, Json, Randomization
 CONSTANTS Depth,          \* max. number of non-default production choices per derivation
-          Kinds,          \* subset of {"select", "insert", "update", "delete", "ddl"}
+          Kinds,          \* subset of {"select", "insert", "update", "delete", "ddl", "cte"}
           Sample          \* 0: every derivation within Depth; m > 0: only m randomly chosen productions per dimension (TLC -seed)
 VARIABLE d
 vars == <<d>>
@@ -52,6 +55,11 @@ DdlFeat == <<"plain", "index", "unique", "check", "identity", "computed", "serve
 DdlOp == <<"create_table", "drop_table", "create_all", "drop_all", "create_index", "drop_index", "add_constraint", "drop_constraint",
            "create_if_not_exists", "drop_if_exists", "create_sequence", "set_comment">>
 DdlName == <<"plain", "schema", "convention", "quoted", "long_names", "schema_translate">>
+CteKind == <<"plain", "recursive", "nesting", "nest_here">>           \* .cte() / .cte(recursive=True) / .cte(nesting=True) / add_cte(c, nest_here=True)
+CteSite == <<"from", "scalar", "exists", "derived", "union_arm">>     \* where a scope that refers to the cte sits
+CteReuse == <<"one", "two">>                                          \* the same cte OBJECT referenced from one / two sibling scopes
+CteSecond == <<"same", "next">>                                       \* two scopes: both at the same kind of site / the second at the next kind
+CteOuter == <<"select", "insert_from", "update_where", "delete_where">>
 
 Rng(q) == {q[i] : i \in 1..Len(q)}
 NonDefault(q, x) == IF x = q[1] \/ x = "-" THEN 0 ELSE 1
@@ -63,6 +71,7 @@ Dims(k) == CASE k = "select" -> <<SelCols, SelFrom, SelCrit, SelMod, SelWrap>>
              [] k = "update" -> <<UpdSet, DmlCrit, Ret, UpdDeco, <<"-">> >>
              [] k = "delete" -> <<DmlCrit, Ret, DelDeco, <<"-">>, <<"-">> >>
              [] k = "ddl" -> <<DdlGraph, DdlFeat, DdlOp, DdlName, <<"-">> >>
+             [] k = "cte" -> <<CteKind, CteSite, CteReuse, CteSecond, CteOuter>>
 Features(x) == LET q == Dims(x.k)
                IN NonDefault(q[1], x.a) + NonDefault(q[2], x.b) + NonDefault(q[3], x.c) + NonDefault(q[4], x.d) + NonDefault(q[5], x.e)
 Space(k) == LET q == Dims(k) IN [k : {k}, a : Rng(q[1]), b : Rng(q[2]), c : Rng(q[3]), d : Rng(q[4]), e : Rng(q[5])]    \* never enumerated
@@ -73,6 +82,8 @@ WF(x) == /\ (x.k = "insert" /\ x.c # "none" => x.a \notin {"defaults"})         
          /\ (x.k = "ddl" /\ x.c \in {"add_constraint", "drop_constraint"} => x.a # "single" \/ x.b \in {"unique", "check"})
          /\ (x.k = "ddl" /\ x.c = "create_sequence" => x.b = "sequence")
          /\ (x.k = "ddl" /\ x.c = "set_comment" => x.b = "comment")
+         /\ (x.k = "cte" /\ x.c = "one" => x.d = "same")                                 \* a second site needs a second scope
+         /\ (x.k = "cte" /\ x.e # "select" => x.b \in {"from", "scalar", "exists"})       \* DML carriers: SELECT source / WHERE criteria
 \* constructive enumeration: choose the <= Depth dimensions that leave their default, then one non-default production for each
 ND(qi) == Rng(qi) \ {qi[1], "-"}
 Mk(k, q, asg) == LET v(n) == IF n \in DOMAIN asg THEN asg[n] ELSE q[n][1] IN Rec(k, v(1), v(2), v(3), v(4), v(5))
@@ -84,7 +95,8 @@ Assignments(q, S) == IF S = {} THEN {<<>>}
                      ELSE LET n == CHOOSE n \in S : TRUE
                           IN {(n :> v) @@ f : v \in Sub(q[n]), f \in Assignments(q, S \ {n})}
 Derivations(k) == LET q == Dims(k)
-                  IN {x \in UNION {{Mk(k, q, f) : f \in Assignments(q, S)} : S \in {S \in SUBSET (1..5) : Cardinality(S) <= Depth}} : WF(x)}
+                  IN IF k = "cte" THEN {x \in Space(k) : WF(x)}             \* full product (4 x 5 x 2 x 2 x 4 before WF)
+                     ELSE {x \in UNION {{Mk(k, q, f) : f \in Assignments(q, S)} : S \in {S \in SUBSET (1..5) : Cardinality(S) <= Depth}} : WF(x)}
 Default(k) == LET q == Dims(k) IN Rec(k, q[1][1], q[2][1], q[3][1], q[4][1], q[5][1])
 
 All == UNION {Derivations(k) : k \in Kinds}
@@ -94,7 +106,7 @@ Next == UNCHANGED vars
 
 \* ------------------------------------------------------------------ sanity theorems
 Typed == d.k \in Kinds /\ d \in Space(d.k) /\ WF(d)
-Bounded == Features(d) <= Depth
+Bounded == d.k = "cte" \/ Features(d) <= Depth
 \* the all-default derivation of every kind is part of the space and so is every single-production derivation: the bound cuts
 \* nothing below itself (a statement about the constants, checked once)
 ASSUME DefaultFirst == \A k \in Kinds : /\ (WF(Default(k)) => Default(k) \in Derivations(k))
